@@ -456,6 +456,7 @@ private:
 
   static void check_preamble_ints(uint8_t preamble_ints, uint8_t num_levels);
   static void check_serial_version(uint8_t serial_version);
+  static void check_shape(uint8_t num_levels, bool raw_items, uint8_t num_raw_items);
   static void check_family_id(uint8_t family_id);
 
   template<typename TT = T, typename std::enable_if<std::is_floating_point<TT>::value, int>::type = 0>
